@@ -69,186 +69,294 @@ Qed.
 Lemma getr_alive : forall S i ri, at_g S -> getr S i = Some ri -> alive g i = true.
 Proof. intros S i ri [_ Hg] Hi. rewrite <- Hg. apply (topo_nb S i ri Hi). Qed.
 
-(* the effect of one Fetch *)
-Lemma fetch_cases : forall S i j, at_g S ->
-  (fst (step S (Fetch i j)) = S /\ (settled g = true -> ~ E i j)) \/
-  (E i j /\ exists ri rj ri',
-     getr S i = Some ri /\ getr S j = Some rj /\ In j (nbrs ri) /\ self ri' = i /\ nbrs ri' = nbrs ri /\
-     (forall d h, rv (rrib ri') d h = if h =? j then newc i (rrib rj) d else rv (rrib ri) d h) /\
-     (forall i', getr (fst (step S (Fetch i j))) i' = if i' =? i then Some ri' else getr S i') /\
-     at_g (fst (step S (Fetch i j)))).
+(* the effect of processing an advertisement, whatever it contains *)
+Lemma deliver_cases : forall S i j adv, at_g S ->
+  (fst (step S (Deliver i j adv)) = S /\ ~ E i j) \/
+  (E i j /\ exists ri ri',
+     getr S i = Some ri /\ In j (nbrs ri) /\ self ri' = i /\ nbrs ri' = nbrs ri /\
+     (forall d h, rv (rrib ri') d h = if h =? j then lastc i adv d INF else rv (rrib ri) d h) /\
+     (forall i', getr (fst (step S (Deliver i j adv))) i' = if i' =? i then Some ri' else getr S i') /\
+     at_g (fst (step S (Deliver i j adv)))).
 Proof.
-  intros S i j Hat. pose proof Hat as [Hok Hg].
-  pose proof (step_ok S (Fetch i j) Hok) as Hok'.
+  intros S i j adv Hat. pose proof Hat as [Hok Hg].
+  pose proof (step_ok S (Deliver i j adv) Hok) as Hok'.
   simpl in *. destruct (getr S i) as [ri|] eqn:Gi.
-  2:{ left. split; [reflexivity|]. intros _. unfold E, nb. rewrite <- Hg, topo_get, Gi. intros []. }
+  2:{ left. split; [reflexivity|]. unfold E, nb. rewrite <- Hg, topo_get, Gi. intros []. }
   destruct (memN j (nbrs ri)) eqn:Mj.
-  2:{ left. split; [destruct (getr S j); reflexivity|]. intros _. unfold E, nb. rewrite <- Hg, topo_get, Gi.
+  2:{ left. split; [reflexivity|]. unfold E, nb. rewrite <- Hg, topo_get, Gi.
       intro H. apply memN_In in H. congruence. }
   apply memN_In in Mj.
   assert (He : E i j) by (eapply getr_E; eauto).
-  destruct (getr S j) as [rj|] eqn:Gj.
-  2:{ left. split; [reflexivity|]. intros Hs _.
-      assert (Haj : alive g j = true).
-      { apply (settled_alive g i j Hs); [eapply getr_alive; eauto | exact He]. }
-      rewrite <- Hg in Haj. apply topo_alive in Haj. destruct Haj as [rj Gj']. congruence. }
   right. split; [exact He|].
   destruct Hok as [Hnd Hall].
-  destruct (getr_some _ _ _ Gi) as [Ii Si]. destruct (getr_some _ _ _ Gj) as [Ij Sj].
-  destruct (Hall ri Ii) as (Ri & _). destruct (Hall rj Ij) as (Rj & _).
-  pose proof (rib_update_spec i (rrib ri) j (advert (rrib rj)) Ri) as [U1 U2].
-  destruct (rib_update i (rrib ri) j (advert (rrib rj))) as [rb db] eqn:Eu. simpl in *.
-  exists ri, rj, (mkRouter i rb (nbrs ri)). simpl.
+  destruct (getr_some _ _ _ Gi) as [Ii Si].
+  destruct (Hall ri Ii) as (Ri & _).
+  pose proof (rib_update_spec i (rrib ri) j adv Ri) as [U1 U2].
+  destruct (rib_update i (rrib ri) j adv) as [rb db] eqn:Eu. simpl in *.
+  exists ri, (mkRouter i rb (nbrs ri)). simpl.
   assert (Hin : In (self (mkRouter i rb (nbrs ri))) (map self S)).
   { simpl. rewrite <- Si. apply in_map. exact Ii. }
-  split; [reflexivity|]. split; [reflexivity|]. split; [exact Mj|]. split; [reflexivity|]. split; [reflexivity|].
-  split; [|split; [|split]].
-  - intros d h. rewrite U2. destruct (h =? j); [|reflexivity].
-    apply lastc_advert. destruct Rj as [Hn _]. exact Hn.
+  split; [reflexivity|]. split; [exact Mj|]. split; [reflexivity|]. split; [reflexivity|].
+  split; [exact U2|]. split; [|split].
   - intros i'. rewrite getr_setr by exact Hin. reflexivity.
   - exact Hok'.
   - rewrite <- Hg. apply (topo_setr S (mkRouter i rb (nbrs ri)) ri); [simpl; exact Gi | reflexivity].
 Qed.
 
-Lemma fetch_at_g : forall S i j, at_g S -> at_g (fst (step S (Fetch i j))).
+Lemma deliver_at_g : forall S i j adv, at_g S -> at_g (fst (step S (Deliver i j adv))).
 Proof.
-  intros S i j Hat. destruct (fetch_cases S i j Hat) as [[-> _] | (_ & ri & rj & ri' & H)]; [exact Hat|].
+  intros S i j adv Hat. destruct (deliver_cases S i j adv Hat) as [[-> _] | (_ & ri & ri' & H)]; [exact Hat|].
   apply H.
 Qed.
 
+(* an atomic fetch is the delivery of the neighbour's current advertisement *)
+Lemma fetch_as_deliver : forall S i j, at_g S ->
+  (fst (step S (Fetch i j)) = S /\ (settled g = true -> ~ E i j)) \/
+  (exists rj, getr S j = Some rj /\
+              fst (step S (Fetch i j)) = fst (step S (Deliver i j (advert (rrib rj))))).
+Proof.
+  intros S i j Hat. destruct (getr S j) as [rj|] eqn:Gj.
+  - right. exists rj. split; [reflexivity|]. simpl. rewrite Gj.
+    destruct (getr S i) as [ri|]; [|reflexivity]. destruct (memN j (nbrs ri)); reflexivity.
+  - left. split.
+    + simpl. rewrite Gj. destruct (getr S i); reflexivity.
+    + intros Hs He. destruct (E_getr S i j Hat He) as (ri & Gi & Hj).
+      assert (Haj : alive g j = true).
+      { apply (settled_alive g i j Hs); [eapply getr_alive; eauto | exact He]. }
+      destruct Hat as [_ Hg]. rewrite <- Hg in Haj. apply topo_alive in Haj. destruct Haj as [rj Gj']. congruence.
+Qed.
+
 (* ------------------------------------------------------------------------------------------ *)
-(* rounds                                                                                     *)
+(* schedules: transfers of advertisements that may be stale                                   *)
 (* ------------------------------------------------------------------------------------------ *)
+(* the advertisement carried by a Deliver was the sender's advertisement in one of the states `past` *)
+Definition src_ok (past : list net) (e : event) : Prop :=
+  match e with
+  | Fetch _ _ => True
+  | Deliver _ j adv => exists Sp rj, In Sp past /\ getr Sp j = Some rj /\ adv = advert (rrib rj)
+  | _ => False
+  end.
+
+(* every event is a transfer whose advertisement was generated no earlier than the state `past` started from *)
+Fixpoint valid_from (past : list net) (S : net) (evs : list event) : Prop :=
+  match evs with
+  | [] => True
+  | e :: t => src_ok (S :: past) e /\ valid_from (S :: past) (fst (step S e)) t
+  end.
+
+Definition covers (evs : list event) : Prop := forall i j, E i j -> existsb (xfers (i, j)) evs = true.
+
+(* an asynchronous round from state S: every advertisement processed was generated within the round,
+   and every ordered adjacent pair is served at least once *)
+Definition around (S : net) (evs : list event) : Prop := valid_from [] S evs /\ covers evs.
+
+Lemma src_ok_mono : forall past past' e, (forall x, In x past -> In x past') -> src_ok past e -> src_ok past' e.
+Proof.
+  intros past past' e Hsub. destruct e; simpl; auto.
+  intros (Sp & rj & Hin & H). exists Sp, rj. split; [apply Hsub; exact Hin | exact H].
+Qed.
+
+Lemma valid_from_mono : forall evs past past' S, (forall x, In x past -> In x past') ->
+  valid_from past S evs -> valid_from past' S evs.
+Proof.
+  induction evs as [|e evs IH]; intros past past' S Hsub; simpl; [auto|].
+  intros [H1 H2]. split.
+  - eapply src_ok_mono; [|exact H1]. intros x [Hx | Hx]; [left; exact Hx | right; apply Hsub; exact Hx].
+  - eapply IH; [|exact H2]. intros x [Hx | Hx]; [left; exact Hx | right; apply Hsub; exact Hx].
+Qed.
+
+Lemma valid_from_app : forall e1 e2 past S, valid_from past S e1 -> valid_from [] (run S e1) e2 ->
+  valid_from past S (e1 ++ e2).
+Proof.
+  induction e1 as [|e e1 IH]; intros e2 past S H1 H2; simpl in *.
+  - eapply valid_from_mono; [|exact H2]. intros x [].
+  - destruct H1 as [A B]. split; [exact A|]. apply IH; [exact B | exact H2].
+Qed.
+
+Inductive arounds : nat -> net -> list event -> Prop :=
+| ar_tail : forall S evs, valid_from [] S evs -> arounds 0 S evs
+| ar_round : forall n S r evs, around S r -> arounds n (run S r) evs -> arounds (Datatypes.S n) S (r ++ evs).
+
+Lemma arounds_valid : forall n S evs, arounds n S evs -> valid_from [] S evs.
+Proof.
+  induction 1 as [S evs H | n S r evs [Hr _] Hn IH]; [exact H|].
+  apply valid_from_app; assumption.
+Qed.
+
+Lemma arounds_split : forall n m S evs, arounds (n + m) S evs ->
+  exists e1 e2, evs = e1 ++ e2 /\ arounds n S e1 /\ arounds m (run S e1) e2.
+Proof.
+  induction n as [|n IH]; intros m S evs H.
+  - exists [], evs. split; [reflexivity|]. split; [constructor; exact I | exact H].
+  - simpl in H. inversion H as [|n' S' r evs' Hr Hn]; subst.
+    destruct (IH m (run S r) evs' Hn) as (e1 & e2 & -> & H1 & H2).
+    exists (r ++ e1), e2. split; [rewrite app_assoc; reflexivity|]. split; [constructor; assumption|].
+    rewrite run_app. exact H2.
+Qed.
+
+Lemma arounds_app_tail : forall n S e1 e2, arounds n S e1 -> valid_from [] (run S e1) e2 -> arounds n S (e1 ++ e2).
+Proof.
+  intros n S e1 e2 H1. induction H1 as [S e1 Hv | n S r e1 Hr Hn IH]; intros H2.
+  - constructor. apply valid_from_app; assumption.
+  - rewrite <- app_assoc. constructor; [exact Hr|]. apply IH. rewrite <- run_app. exact H2.
+Qed.
+
+Lemma arounds_weaken : forall n m S evs, (m <= n)%nat -> arounds n S evs -> arounds m S evs.
+Proof.
+  intros n m S evs Hle H. replace n with (m + (n - m))%nat in H by lia.
+  destruct (arounds_split m (n - m) S evs H) as (e1 & e2 & -> & H1 & H2).
+  apply arounds_app_tail; [exact H1 | eapply arounds_valid; eauto].
+Qed.
+
+(* synchronous rounds (Spec.is_round: atomic fetches only) are a special case *)
 Definition fetch_only (evs : list event) : Prop := forallb is_fetch evs = true.
 
-Lemma is_round_covers : forall evs, is_round g evs = true ->
-  fetch_only evs /\ forall i j, E i j -> In (Fetch i j) evs.
+Lemma fetch_only_valid : forall evs past S, fetch_only evs -> valid_from past S evs.
 Proof.
-  intros evs H. unfold is_round in H. apply andb_true_iff in H. destruct H as [H1 H2].
-  split; [exact H1|]. intros i j He. rewrite forallb_forall in H2.
+  induction evs as [|e evs IH]; intros past S H; simpl; [exact I|].
+  unfold fetch_only in H. simpl in H. apply andb_true_iff in H. destruct H as [He H].
+  split; [destruct e; simpl in *; try discriminate; exact I | apply IH; exact H].
+Qed.
+
+Lemma is_round_around : forall evs S, is_round g evs = true -> around S evs.
+Proof.
+  intros evs S H. unfold is_round in H. apply andb_true_iff in H. destruct H as [H1 H2].
+  split; [apply fetch_only_valid; exact H1|].
+  intros i j He. rewrite forallb_forall in H2.
   assert (Hp : In (i, j) (all_pairs g)).
   { unfold all_pairs. apply in_flat_map. unfold E, nb in He.
     destruct (aget i g) as [l|] eqn:Ea; [|destruct He].
     exists (i, l). split; [apply aget_in; exact Ea|]. simpl. apply in_map. exact He. }
   specialize (H2 _ Hp). apply existsb_exists in H2. destruct H2 as (e & He1 & He2).
-  destruct e as [a b | | | |]; simpl in He2; try discriminate.
-  unfold pair_eqb in He2. simpl in He2.
-  assert (i = a /\ j = b) by lia. destruct H as [-> ->]. exact He1.
+  apply existsb_exists. exists e. split; [exact He1|].
+  destruct e; simpl in *; try discriminate. exact He2.
 Qed.
 
-Section Round.
-Variable I : net -> Prop.
-Variable P : N -> net -> node -> node -> Prop.
-Hypothesis I_step : forall S i j, I S -> I (fst (step S (Fetch i j))).
-Hypothesis P_up : forall r S i j, I S -> (forall i' j', E i' j' -> P r S i' j') -> E i j ->
-  P (r + 1) (fst (step S (Fetch i j))) i j.
-Hypothesis P_keep : forall r S i j i' j', I S -> E i' j' -> P r S i' j' -> (i' <> i \/ j' <> j) ->
-  P r (fst (step S (Fetch i j))) i' j'.
-Hypothesis P_mono : forall r S i j, P (r + 1) S i j -> P r S i j.
-
-Lemma level_step : forall r S i j, I S -> (forall i' j', E i' j' -> P r S i' j') ->
-  forall i' j', E i' j' -> P r (fst (step S (Fetch i j))) i' j'.
-Proof.
-  intros r S i j HI Hall i' j' He.
-  destruct (N.eq_dec i' i) as [-> | Hi].
-  - destruct (N.eq_dec j' j) as [-> | Hj].
-    + apply P_mono. apply P_up; assumption.
-    + apply P_keep; auto.
-  - apply P_keep; auto.
-Qed.
-
-Lemma round_gen : forall r evs S (done : node -> node -> Prop), I S -> fetch_only evs ->
-  (forall i j, E i j -> P r S i j) ->
-  (forall i j, E i j -> done i j -> P (r + 1) S i j) ->
-  I (run S evs) /\ (forall i j, E i j -> P r (run S evs) i j) /\
-  (forall i j, E i j -> done i j \/ In (Fetch i j) evs -> P (r + 1) (run S evs) i j).
-Proof.
-  intros r. induction evs as [|e evs IH]; intros S done HI Hf Hall Hdone.
-  - simpl. split; [exact HI|]. split; [exact Hall|]. intros i j He [H | []]. apply Hdone; assumption.
-  - unfold fetch_only in Hf. simpl in Hf. apply andb_true_iff in Hf. destruct Hf as [Hfe Hf].
-    destruct e as [a b | | | |]; simpl in Hfe; try discriminate.
-    change (run S (Fetch a b :: evs)) with (run (fst (step S (Fetch a b))) evs).
-    set (S1 := fst (step S (Fetch a b))).
-    specialize (IH S1 (fun i j => done i j \/ (i = a /\ j = b))).
-    destruct IH as (I1 & I2 & I3).
-    + apply I_step. exact HI.
-    + exact Hf.
-    + apply level_step; assumption.
-    + intros i j He [Hd | [-> ->]].
-      * destruct (N.eq_dec i a) as [-> | Hi].
-        -- destruct (N.eq_dec j b) as [-> | Hj].
-           ++ apply P_up; assumption.
-           ++ apply P_keep; auto.
-        -- apply P_keep; auto.
-      * apply P_up; assumption.
-    + split; [exact I1|]. split; [exact I2|].
-      intros i j He [Hd | [Heq | Hin]].
-      * apply I3; auto.
-      * inversion Heq; subst. apply I3; auto.
-      * apply I3; auto.
-Qed.
-
-Lemma fetches_keep : forall r evs S, I S -> fetch_only evs -> (forall i j, E i j -> P r S i j) ->
-  I (run S evs) /\ forall i j, E i j -> P r (run S evs) i j.
-Proof.
-  intros r evs S HI Hf Hall.
-  destruct (round_gen r evs S (fun _ _ => False) HI Hf Hall) as (A & B & _); [tauto | auto].
-Qed.
-
-Lemma round_up : forall r evs S, I S -> is_round g evs = true -> (forall i j, E i j -> P r S i j) ->
-  I (run S evs) /\ forall i j, E i j -> P (r + 1) (run S evs) i j.
-Proof.
-  intros r evs S HI Hr Hall. destruct (is_round_covers evs Hr) as [Hf Hc].
-  destruct (round_gen r evs S (fun _ _ => False) HI Hf Hall) as (A & _ & C); [tauto|].
-  split; [exact A|]. intros i j He. apply C; auto.
-Qed.
-
-(* n rounds followed by any further fetches *)
 Inductive nrounds : nat -> list event -> Prop :=
 | nr_tail : forall evs, fetch_only evs -> nrounds 0 evs
-| nr_round : forall n r evs, is_round g r = true -> nrounds n evs -> nrounds (S n) (r ++ evs).
+| nr_round : forall n r evs, is_round g r = true -> nrounds n evs -> nrounds (Datatypes.S n) (r ++ evs).
 
-Lemma rounds_up : forall n evs, nrounds n evs -> forall r S, I S -> (forall i j, E i j -> P r S i j) ->
-  I (run S evs) /\ forall i j, E i j -> P (r + N.of_nat n) (run S evs) i j.
+Lemma nrounds_arounds : forall n evs, nrounds n evs -> forall S, arounds n S evs.
 Proof.
-  induction 1 as [evs Hf | n rd evs Hr Hn IH]; intros r S HI Hall.
-  - replace (r + N.of_nat 0) with r by lia. apply fetches_keep; assumption.
-  - rewrite run_app. destruct (round_up r rd S HI Hr Hall) as [I1 A1].
-    destruct (IH (r + 1) (run S rd) I1 A1) as [I2 A2]. split; [exact I2|].
-    replace (r + N.of_nat (Datatypes.S n)) with (r + 1 + N.of_nat n) by lia. exact A2.
+  induction 1 as [evs Hf | n r evs Hr Hn IH]; intros S.
+  - constructor. apply fetch_only_valid. exact Hf.
+  - constructor; [apply is_round_around; exact Hr | apply IH].
+Qed.
+
+(* ------------------------------------------------------------------------------------------ *)
+(* per-pair levels raised by rounds                                                           *)
+(* ------------------------------------------------------------------------------------------ *)
+Section Round.
+Hypothesis g_settled : settled g = true.
+Variable P : N -> net -> node -> node -> Prop.
+Definition allP (r : N) (S : net) : Prop := forall i j, E i j -> P r S i j.
+
+Hypothesis P_up : forall r S Sp i j rj, at_g S -> at_g Sp -> allP r Sp -> getr Sp j = Some rj -> E i j ->
+  P (r + 1) (fst (step S (Deliver i j (advert (rrib rj))))) i j.
+Hypothesis P_keep : forall r S i j adv i' j', at_g S -> E i' j' -> P r S i' j' -> (i' <> i \/ j' <> j) ->
+  P r (fst (step S (Deliver i j adv))) i' j'.
+Hypothesis P_mono : forall r S i j, P (r + 1) S i j -> P r S i j.
+
+Lemma deliver_level : forall r S Sp a b rj, at_g S -> at_g Sp -> allP r Sp -> allP r S -> getr Sp b = Some rj ->
+  let S1 := fst (step S (Deliver a b (advert (rrib rj)))) in
+  at_g S1 /\ allP r S1 /\
+  forall i j, E i j -> (P (r + 1) S i j \/ (i = a /\ j = b)) -> P (r + 1) S1 i j.
+Proof.
+  intros r S Sp a b rj Hat Hatp Hallp Hall Gb S1. subst S1.
+  split; [apply deliver_at_g; exact Hat|]. split.
+  - intros i j He.
+    destruct (N.eq_dec i a) as [-> | Hi]; [destruct (N.eq_dec j b) as [-> | Hj]|].
+    + apply P_mono. eapply P_up; eauto.
+    + apply P_keep; auto.
+    + apply P_keep; auto.
+  - intros i j He Hor.
+    destruct (N.eq_dec i a) as [-> | Hi]; [destruct (N.eq_dec j b) as [-> | Hj]|].
+    + eapply P_up; eauto.
+    + destruct Hor as [H | [_ H]]; [apply P_keep; auto | contradiction].
+    + destruct Hor as [H | [H _]]; [apply P_keep; auto | contradiction].
+Qed.
+
+Lemma xfer_level : forall r S past e, at_g S -> (forall Sp, In Sp past -> at_g Sp /\ allP r Sp) -> allP r S ->
+  src_ok (S :: past) e ->
+  let S1 := fst (step S e) in
+  at_g S1 /\ allP r S1 /\
+  forall i j, E i j -> (P (r + 1) S i j \/ xfers (i, j) e = true) -> P (r + 1) S1 i j.
+Proof.
+  intros r S past e Hat Hpast Hall Hsrc S1. subst S1.
+  destruct e as [a b | a b adv | | | |]; simpl in Hsrc; try contradiction.
+  - (* Fetch *)
+    destruct (fetch_as_deliver S a b Hat) as [[Heq Hn] | (rj & Gj & Heq)]; rewrite Heq.
+    + split; [exact Hat|]. split; [exact Hall|].
+      intros i j He [H | H]; [exact H|].
+      simpl in H. unfold pair_eqb in H. simpl in H. assert (i = a /\ j = b) by lia. destruct H0 as [-> ->].
+      exfalso. exact (Hn g_settled He).
+    + destruct (deliver_level r S S a b rj Hat Hat Hall Hall Gj) as (A & B & C).
+      split; [exact A|]. split; [exact B|].
+      intros i j He [H | H]; [apply C; auto|].
+      simpl in H. unfold pair_eqb in H. simpl in H. apply C; [exact He|]. right. lia.
+  - (* Deliver *)
+    destruct Hsrc as (Sp & rj & Hin & Gj & ->).
+    assert (Hsp : at_g Sp /\ allP r Sp).
+    { destruct Hin as [<- | Hin]; [split; assumption | apply Hpast; exact Hin]. }
+    destruct Hsp as [Hatp Hallp].
+    destruct (deliver_level r S Sp a b rj Hat Hatp Hallp Hall Gj) as (A & B & C).
+    split; [exact A|]. split; [exact B|].
+    intros i j He [H | H]; [apply C; auto|].
+    simpl in H. unfold pair_eqb in H. simpl in H. apply C; [exact He|]. right. lia.
+Qed.
+
+Lemma round_gen : forall r evs S past (done : node -> node -> Prop), at_g S ->
+  (forall Sp, In Sp past -> at_g Sp /\ allP r Sp) -> allP r S ->
+  (forall i j, E i j -> done i j -> P (r + 1) S i j) ->
+  valid_from past S evs ->
+  at_g (run S evs) /\ allP r (run S evs) /\
+  (forall i j, E i j -> done i j \/ existsb (xfers (i, j)) evs = true -> P (r + 1) (run S evs) i j).
+Proof.
+  intros r. induction evs as [|e evs IH]; intros S past done Hat Hpast Hall Hdone Hv.
+  - simpl. split; [exact Hat|]. split; [exact Hall|]. intros i j He [H | H]; [apply Hdone; assumption | discriminate].
+  - simpl in Hv. destruct Hv as [Hsrc Hv].
+    change (run S (e :: evs)) with (run (fst (step S e)) evs).
+    destruct (xfer_level r S past e Hat Hpast Hall Hsrc) as (A & B & C).
+    destruct (IH (fst (step S e)) (S :: past) (fun i j => done i j \/ xfers (i, j) e = true)) as (I1 & I2 & I3).
+    + exact A.
+    + intros Sp [<- | Hin]; [split; assumption | apply Hpast; exact Hin].
+    + exact B.
+    + intros i j He [Hd | Hx]; apply C; auto.
+    + exact Hv.
+    + split; [exact I1|]. split; [exact I2|].
+      intros i j He [Hd | Hx]; [apply I3; auto|].
+      simpl in Hx. apply orb_true_iff in Hx. destruct Hx as [Hx | Hx]; apply I3; auto.
+Qed.
+
+Lemma xfers_keep : forall r evs S, at_g S -> allP r S -> valid_from [] S evs ->
+  at_g (run S evs) /\ allP r (run S evs).
+Proof.
+  intros r evs S Hat Hall Hv.
+  destruct (round_gen r evs S [] (fun _ _ => False) Hat) as (A & B & _); auto.
+  - intros Sp [].
+  - intros i j _ [].
+Qed.
+
+Lemma round_up : forall r evs S, at_g S -> allP r S -> around S evs ->
+  at_g (run S evs) /\ allP (r + 1) (run S evs).
+Proof.
+  intros r evs S Hat Hall [Hv Hc].
+  destruct (round_gen r evs S [] (fun _ _ => False) Hat) as (A & _ & C); auto.
+  - intros Sp [].
+  - intros i j _ [].
+  - split; [exact A|]. intros i j He. apply C; [exact He|]. right. apply Hc. exact He.
+Qed.
+
+Lemma rounds_up : forall n S evs, arounds n S evs -> forall r, at_g S -> allP r S ->
+  at_g (run S evs) /\ allP (r + N.of_nat n) (run S evs).
+Proof.
+  induction 1 as [S evs Hv | n S rd evs Hr Hn IH]; intros r Hat Hall.
+  - replace (r + N.of_nat 0) with r by lia. apply xfers_keep; assumption.
+  - rewrite run_app. destruct (round_up r rd S Hat Hall Hr) as [A1 B1].
+    destruct (IH (r + 1) A1 B1) as [A2 B2]. split; [exact A2|].
+    replace (r + N.of_nat (Datatypes.S n)) with (r + 1 + N.of_nat n) by lia. exact B2.
 Qed.
 End Round.
-
-Lemma nrounds_split : forall n m evs, nrounds (n + m) evs ->
-  exists evs1 evs2, evs = evs1 ++ evs2 /\ nrounds n evs1 /\ nrounds m evs2.
-Proof.
-  induction n as [|n IH]; intros m evs H.
-  - exists [], evs. split; [reflexivity|]. split; [constructor; reflexivity | exact H].
-  - simpl in H. inversion H as [|n' r evs' Hr Hn]; subst.
-    destruct (IH m evs' Hn) as (e1 & e2 & -> & H1 & H2).
-    exists (r ++ e1), e2. split; [rewrite app_assoc; reflexivity|]. split; [constructor; assumption | exact H2].
-Qed.
-
-Lemma nrounds_fetch_only : forall n evs, nrounds n evs -> fetch_only evs.
-Proof.
-  induction 1 as [evs Hf | n r evs Hr Hn IH]; [exact Hf|].
-  unfold fetch_only in *. rewrite forallb_app.
-  destruct (is_round_covers r Hr) as [Hfr _]. unfold fetch_only in Hfr. rewrite Hfr, IH. reflexivity.
-Qed.
-
-Lemma nrounds_app_tail : forall n e1 e2, nrounds n e1 -> fetch_only e2 -> nrounds n (e1 ++ e2).
-Proof.
-  intros n e1 e2 H1 H2. induction H1 as [e1 Hf | n r e1 Hr Hn IH].
-  - constructor. unfold fetch_only in *. rewrite forallb_app, Hf, H2. reflexivity.
-  - rewrite <- app_assoc. constructor; [exact Hr | exact IH].
-Qed.
-
-Lemma nrounds_weaken : forall n m evs, (m <= n)%nat -> nrounds n evs -> nrounds m evs.
-Proof.
-  intros n m evs Hle H. replace n with (m + (n - m))%nat in H by lia.
-  destruct (nrounds_split m (n - m) evs H) as (e1 & e2 & -> & H1 & H2).
-  apply nrounds_app_tail; [exact H1 | eapply nrounds_fetch_only; eauto].
-Qed.
 
 (* ------------------------------------------------------------------------------------------ *)
 (* phase 1: stored costs below the round number are witnessed by paths                        *)
@@ -274,40 +382,32 @@ Proof.
     apply reachN_0. split; [reflexivity | eapply getr_alive; eauto].
 Qed.
 
-Lemma LB_up_or : forall r S i j, at_g S -> (forall i' j', E i' j' -> LBp r S i' j') -> E i j ->
-  (fst (step S (Fetch i j)) = S /\ (settled g = true -> ~ E i j)) \/
-  LBp (r + 1) (fst (step S (Fetch i j))) i j.
+Lemma LB_up : forall r S Sp i j rj, at_g S -> at_g Sp -> LB r Sp -> getr Sp j = Some rj -> E i j ->
+  LBp (r + 1) (fst (step S (Deliver i j (advert (rrib rj))))) i j.
 Proof.
-  intros r S i j Hat HLB He.
-  destruct (fetch_cases S i j Hat) as [Hn | (_ & ri & rj & ri' & Gi & Gj & Hj & Si' & Nb' & Hrv & Hget & Hat')];
-    [left; exact Hn | right].
+  intros r S Sp i j rj Hat Hatp HLB Gj He.
+  destruct (deliver_cases S i j (advert (rrib rj)) Hat)
+    as [[_ Hn] | (_ & ri & ri' & Gi & Hj & Si' & Nb' & Hrv & Hget & Hat')]; [contradiction|].
   intros rx d Gx Hr Hlt. rewrite Hget, N.eqb_refl in Gx. inversion Gx; subst rx; clear Gx.
-  rewrite Hrv, N.eqb_refl in *.
-  pose proof Hat as [[_ Hall] _]. destruct (getr_some _ _ _ Gj) as [Ij Sj].
+  pose proof Hatp as [[_ Hall] _]. destruct (getr_some _ _ _ Gj) as [Ij Sj].
   destruct (Hall rj Ij) as (Rj & _).
+  rewrite Hrv, N.eqb_refl in *. rewrite lastc_advert in * by (destruct Rj as [Hn _]; exact Hn).
   destruct (newc_lt i (rrib rj) d Rj Hlt) as (a & Ha & Halt & Hcase).
   exists a. split; [exact Ha|].
   assert (Har : a < r) by lia.
   destruct Hcase as [[Hb _] | [Hb _]].
   - pose proof (b1_attained (rrib rj) d Rj) as Hatt. rewrite <- Hb in Hatt. specialize (Hatt Halt).
-    rewrite <- Hatt. apply (witness_rv r S j rj d _ Hat HLB Gj); rewrite Hatt; assumption.
+    rewrite <- Hatt. apply (witness_rv r Sp j rj d _ Hatp HLB Gj); rewrite Hatt; assumption.
   - pose proof (b2_attained (rrib rj) d Rj) as Hatt. rewrite <- Hb in Hatt. destruct (Hatt Halt) as [Hatt' _].
-    rewrite <- Hatt'. apply (witness_rv r S j rj d _ Hat HLB Gj); rewrite Hatt'; assumption.
+    rewrite <- Hatt'. apply (witness_rv r Sp j rj d _ Hatp HLB Gj); rewrite Hatt'; assumption.
 Qed.
 
-Lemma LB_up : settled g = true -> forall r S i j, at_g S -> (forall i' j', E i' j' -> LBp r S i' j') -> E i j ->
-  LBp (r + 1) (fst (step S (Fetch i j))) i j.
+Lemma LB_keep : forall r S i j adv i' j', at_g S -> E i' j' -> LBp r S i' j' -> (i' <> i \/ j' <> j) ->
+  LBp r (fst (step S (Deliver i j adv))) i' j'.
 Proof.
-  intros Hs r S i j Hat HLB He.
-  destruct (LB_up_or r S i j Hat HLB He) as [[_ Hn] | H]; [exfalso; exact (Hn Hs He) | exact H].
-Qed.
-
-Lemma LB_keep : forall r S i j i' j', at_g S -> E i' j' -> LBp r S i' j' -> (i' <> i \/ j' <> j) ->
-  LBp r (fst (step S (Fetch i j))) i' j'.
-Proof.
-  intros r S i j i' j' Hat He HP Hne.
-  destruct (fetch_cases S i j Hat) as [[-> _] | (_ & ri & rj & ri' & Gi & Gj & Hj & Si' & Nb' & Hrv & Hget & Hat')];
-    [exact HP|].
+  intros r S i j adv i' j' Hat He HP Hne.
+  destruct (deliver_cases S i j adv Hat)
+    as [[-> _] | (_ & ri & ri' & Gi & Hj & Si' & Nb' & Hrv & Hget & Hat')]; [exact HP|].
   intros rx d Gx. rewrite Hget in Gx. destruct (i' =? i) eqn:Ei.
   - inversion Gx; subst rx; clear Gx. assert (i' = i) by lia. subst i'.
     assert (Hjj : (j' =? j) = false) by (destruct Hne; lia).
@@ -329,23 +429,21 @@ Proof.
   intros r S Hr H i j He ri d G _ Hlt. apply (H i j He ri d G); [lia | exact Hlt].
 Qed.
 
-Lemma NU_LB : forall r S, NU S -> LB r S.
-Proof. intros r S H i j He ri d G _ Hlt. apply (H i j He ri d G); [exact Hlt | exact Hlt]. Qed.
-
-Theorem lower_bound_rounds : settled g = true -> forall n evs S, at_g S -> nrounds n evs ->
+Theorem lower_bound_rounds : settled g = true -> forall n S evs, at_g S -> arounds n S evs ->
   at_g (run S evs) /\ LB (N.of_nat n) (run S evs).
 Proof.
-  intros Hs n evs S Hat Hn.
-  pose proof (rounds_up at_g LBp fetch_at_g (LB_up Hs) LB_keep LB_mono n evs Hn 0 S Hat (LB_zero S)) as [A B].
-  split; [exact A|]. exact B.
+  intros Hs n S evs Hat Hn.
+  exact (rounds_up Hs LBp LB_up LB_keep LB_mono n S evs Hn 0 Hat (LB_zero S)).
 Qed.
 
-(* NU is stable under fetches *)
-Lemma NU_step : forall S i j, at_g S -> NU S -> NU (fst (step S (Fetch i j))).
+(* NU is kept by an atomic fetch (no assumption on the topology being settled) *)
+Lemma NU_fetch : forall S i j, at_g S -> NU S -> NU (fst (step S (Fetch i j))).
 Proof.
-  intros S i j Hat H i' j' He.
+  intros S i j Hat H.
+  destruct (fetch_as_deliver S i j Hat) as [[-> _] | (rj & Gj & ->)]; [exact H|].
+  intros i' j' He.
   destruct (N.eq_dec i' i) as [-> | Hi]; [destruct (N.eq_dec j' j) as [-> | Hj]|].
-  - destruct (LB_up_or INF S i j Hat H He) as [[-> _] | H']; [apply H; exact He | apply LB_mono; exact H'].
+  - apply LB_mono. apply (LB_up INF S S i j rj Hat Hat H Gj He).
   - apply LB_keep; auto.
   - apply LB_keep; auto.
 Qed.
@@ -359,10 +457,16 @@ Definition UBp (k : N) (S : net) (i j : node) : Prop :=
 
 Definition UB (k : N) (S : net) : Prop := forall i j, E i j -> UBp k S i j.
 
+(* the level predicate of phase 2 carries the no-underestimate invariant along *)
+Definition P2 (k : N) (S : net) (i j : node) : Prop := LBp INF S i j /\ UBp k S i j.
 Definition I2 (S : net) : Prop := at_g S /\ NU S.
 
-Lemma I2_step : forall S i j, I2 S -> I2 (fst (step S (Fetch i j))).
-Proof. intros S i j [A B]. split; [apply fetch_at_g; exact A | apply NU_step; assumption]. Qed.
+Lemma allP2 : forall k S, allP P2 k S <-> NU S /\ UB k S.
+Proof.
+  intros k S. split.
+  - intros H. split; intros i j He; apply (H i j He).
+  - intros [H1 H2] i j He. split; [apply H1 | apply H2]; exact He.
+Qed.
 
 (* under NU, a finite best cost is the length of a real path *)
 Lemma NU_b1_reach : forall S j rj d, I2 S -> getr S j = Some rj -> b1 (rrib rj) d < INF ->
@@ -396,38 +500,42 @@ Proof.
   destruct Hd as [_ Hmin]. specialize (Hmin _ Hr). lia.
 Qed.
 
-Lemma UB_up : settled g = true -> forall k S i j, I2 S -> (forall i' j', E i' j' -> UBp k S i' j') -> E i j ->
-  UBp (k + 1) (fst (step S (Fetch i j))) i j.
+Lemma P2_up : forall k S Sp i j rj, at_g S -> at_g Sp -> allP P2 k Sp -> getr Sp j = Some rj -> E i j ->
+  P2 (k + 1) (fst (step S (Deliver i j (advert (rrib rj))))) i j.
 Proof.
-  intros Hs k S i j HI HUB He. pose proof HI as [Hat HNU].
-  destruct (fetch_cases S i j Hat) as [[_ Hn] | (_ & ri & rj & ri' & Gi & Gj & Hj & Si' & Nb' & Hrv & Hget & Hat')];
-    [exfalso; exact (Hn Hs He)|].
-  intros rx d m Gx Hmk Hdj Hdi Hm. rewrite Hget, N.eqb_refl in Gx. inversion Gx; subst rx; clear Gx.
-  rewrite Hrv, N.eqb_refl.
-  pose proof Hat as [[_ Hall] _].
-  destruct (getr_some _ _ _ Gj) as [Ij Sj]. destruct (Hall rj Ij) as (Rj & Hhj & Zj & Nj).
-  destruct (getr_some _ _ _ Gi) as [Ii Si]. destruct (Hall ri Ii) as (Ri & Hhi & Zi & Ni).
-  assert (Hb : b1 (rrib rj) d = m) by (apply (UB_b1 k S j rj d m HI HUB Gj Hdj); lia).
-  apply newc_eq; [exact Rj | exact Hb | | exact Hm].
-  (* poison reverse does not strike: j's best next hop towards d is not i *)
-  intro Hn1.
-  assert (Hatt : rv (rrib rj) d i = m).
-  { rewrite <- Hn1, <- Hb. apply b1_attained; [exact Rj | lia]. }
-  assert (Hlt : rv (rrib rj) d i < INF) by lia.
-  destruct (Hhj d i Hlt) as [Hin | [Hself _]].
-  - assert (Hji : E j i) by exact (getr_E S j rj i Hat Gj Hin).
-    destruct (HNU j i Hji rj d Gj Hlt Hlt) as (c & Hc & Hreach).
-    destruct Hdi as [_ Hmin]. specialize (Hmin _ Hreach). lia.
-  - (* i = j is impossible: j is a neighbour of i and no router is its own neighbour *)
-    apply Ni. rewrite Si. rewrite Hself, Sj. exact Hj.
+  intros k S Sp i j rj Hat Hatp Hallp Gj He.
+  apply allP2 in Hallp. destruct Hallp as [HNU HUB].
+  split.
+  - apply LB_mono. apply (LB_up INF S Sp i j rj Hat Hatp HNU Gj He).
+  - destruct (deliver_cases S i j (advert (rrib rj)) Hat)
+      as [[_ Hn] | (_ & ri & ri' & Gi & Hj & Si' & Nb' & Hrv & Hget & Hat')]; [contradiction|].
+    intros rx d m Gx Hmk Hdj Hdi Hm. rewrite Hget, N.eqb_refl in Gx. inversion Gx; subst rx; clear Gx.
+    pose proof Hatp as [[_ Hallr] _].
+    destruct (getr_some _ _ _ Gj) as [Ij Sj]. destruct (Hallr rj Ij) as (Rj & Hhj & Zj & Nj).
+    pose proof Hat as [[_ Hallc] _].
+    destruct (getr_some _ _ _ Gi) as [Ii Si]. destruct (Hallc ri Ii) as (Ri & Hhi & Zi & Ni).
+    rewrite Hrv, N.eqb_refl. rewrite lastc_advert by (destruct Rj as [Hn _]; exact Hn).
+    assert (Hb : b1 (rrib rj) d = m) by (apply (UB_b1 k Sp j rj d m (conj Hatp HNU) HUB Gj Hdj); lia).
+    apply newc_eq; [exact Rj | exact Hb | | exact Hm].
+    (* poison reverse does not strike: j's best next hop towards d is not i *)
+    intro Hn1.
+    assert (Hatt : rv (rrib rj) d i = m).
+    { rewrite <- Hn1, <- Hb. apply b1_attained; [exact Rj | lia]. }
+    assert (Hlt : rv (rrib rj) d i < INF) by lia.
+    destruct (Hhj d i Hlt) as [Hin | [Hself _]].
+    + assert (Hji : E j i) by exact (getr_E Sp j rj i Hatp Gj Hin).
+      destruct (HNU j i Hji rj d Gj Hlt Hlt) as (c & Hc & Hreach).
+      destruct Hdi as [_ Hmin]. specialize (Hmin _ Hreach). lia.
+    + (* i = j is impossible: j is a neighbour of i and no router is its own neighbour *)
+      apply Ni. rewrite Si. rewrite Hself, Sj. exact Hj.
 Qed.
 
-Lemma UB_keep : forall k S i j i' j', I2 S -> E i' j' -> UBp k S i' j' -> (i' <> i \/ j' <> j) ->
-  UBp k (fst (step S (Fetch i j))) i' j'.
+Lemma UB_keep : forall k S i j adv i' j', at_g S -> E i' j' -> UBp k S i' j' -> (i' <> i \/ j' <> j) ->
+  UBp k (fst (step S (Deliver i j adv))) i' j'.
 Proof.
-  intros k S i j i' j' [Hat _] He HP Hne.
-  destruct (fetch_cases S i j Hat) as [[-> _] | (_ & ri & rj & ri' & Gi & Gj & Hj & Si' & Nb' & Hrv & Hget & Hat')];
-    [exact HP|].
+  intros k S i j adv i' j' Hat He HP Hne.
+  destruct (deliver_cases S i j adv Hat)
+    as [[-> _] | (_ & ri & ri' & Gi & Hj & Si' & Nb' & Hrv & Hget & Hat')]; [exact HP|].
   intros rx d m Gx. rewrite Hget in Gx. destruct (i' =? i) eqn:Ei.
   - inversion Gx; subst rx; clear Gx. assert (i' = i) by lia. subst i'.
     assert (Hjj : (j' =? j) = false) by (destruct Hne; lia).
@@ -435,18 +543,27 @@ Proof.
   - apply HP. exact Gx.
 Qed.
 
-Lemma UB_mono : forall k S i j, UBp (k + 1) S i j -> UBp k S i j.
-Proof. intros k S i j H ri d m G Hm. apply H; [exact G | lia]. Qed.
+Lemma P2_keep : forall k S i j adv i' j', at_g S -> E i' j' -> P2 k S i' j' -> (i' <> i \/ j' <> j) ->
+  P2 k (fst (step S (Deliver i j adv))) i' j'.
+Proof.
+  intros k S i j adv i' j' Hat He [H1 H2] Hne. split; [apply LB_keep | apply UB_keep]; assumption.
+Qed.
+
+Lemma P2_mono : forall k S i j, P2 (k + 1) S i j -> P2 k S i j.
+Proof.
+  intros k S i j [H1 H2]. split; [exact H1|]. intros ri d m G Hm. apply H2; [exact G | lia].
+Qed.
 
 Lemma UB_zero : forall S, UB 0 S.
 Proof. intros S i j _ ri d m _ H. lia. Qed.
 
-Theorem upper_bound_rounds : settled g = true -> forall n evs S, I2 S -> nrounds n evs ->
+Theorem upper_bound_rounds : settled g = true -> forall n S evs, I2 S -> arounds n S evs ->
   I2 (run S evs) /\ UB (N.of_nat n) (run S evs).
 Proof.
-  intros Hs n evs S HI Hn.
-  pose proof (rounds_up I2 UBp I2_step (UB_up Hs) UB_keep UB_mono n evs Hn 0 S HI (UB_zero S)) as [A B].
-  split; [exact A | exact B].
+  intros Hs n S evs [Hat HNU] Hn.
+  assert (H0 : allP P2 0 S) by (apply allP2; split; [exact HNU | apply UB_zero]).
+  destruct (rounds_up Hs P2 P2_up P2_keep P2_mono n S evs Hn 0 Hat H0) as [A B].
+  apply allP2 in B. destruct B as [B1 B2]. split; [split; assumption | exact B2].
 Qed.
 
 (* ------------------------------------------------------------------------------------------ *)
@@ -509,26 +626,26 @@ Qed.
 (* ---- the two convergence theorems on a fixed topology ---- *)
 
 (* from any state without underestimates (in particular a clean start), k rounds suffice *)
-Theorem converges_from_NU : settled g = true -> forall k n evs S, at_g S -> NU S -> dist_bound k ->
-  (N.to_nat k <= n)%nat -> nrounds n evs -> conv_at (run S evs) /\ at_g (run S evs).
+Theorem converges_from_NU : settled g = true -> forall k n S evs, at_g S -> NU S -> dist_bound k ->
+  (N.to_nat k <= n)%nat -> arounds n S evs -> conv_at (run S evs) /\ at_g (run S evs).
 Proof.
-  intros Hs k n evs S Hat HNU Hk Hn Hr.
-  destruct (upper_bound_rounds Hs n evs S (conj Hat HNU) Hr) as [HI HUB].
+  intros Hs k n S evs Hat HNU Hk Hn Hr.
+  destruct (upper_bound_rounds Hs n S evs (conj Hat HNU) Hr) as [HI HUB].
   split; [|apply HI].
   apply (converged_state (N.of_nat n) (run S evs) HI HUB).
   intros i d m Hd Hm. specialize (Hk i d m Hd Hm). lia.
 Qed.
 
 (* from any well-formed state, INF + k rounds suffice *)
-Theorem self_stabilises : settled g = true -> forall k n evs S, at_g S -> dist_bound k ->
-  (N.to_nat INF + N.to_nat k <= n)%nat -> nrounds n evs -> conv_at (run S evs) /\ at_g (run S evs).
+Theorem self_stabilises : settled g = true -> forall k n S evs, at_g S -> dist_bound k ->
+  (N.to_nat INF + N.to_nat k <= n)%nat -> arounds n S evs -> conv_at (run S evs) /\ at_g (run S evs).
 Proof.
-  intros Hs k n evs S Hat Hk Hn Hr.
-  apply (nrounds_weaken n (N.to_nat INF + N.to_nat k)) in Hr; [|exact Hn].
-  destruct (nrounds_split _ _ evs Hr) as (e1 & e2 & -> & H1 & H2).
-  destruct (lower_bound_rounds Hs _ e1 S Hat H1) as [Hat1 HLB].
+  intros Hs k n S evs Hat Hk Hn Hr.
+  apply (arounds_weaken n (N.to_nat INF + N.to_nat k)) in Hr; [|exact Hn].
+  destruct (arounds_split _ _ S evs Hr) as (e1 & e2 & -> & H1 & H2).
+  destruct (lower_bound_rounds Hs _ S e1 Hat H1) as [Hat1 HLB].
   rewrite run_app.
-  apply (converges_from_NU Hs k (N.to_nat k) e2 (run S e1) Hat1); [|exact Hk | lia | exact H2].
+  apply (converges_from_NU Hs k (N.to_nat k) (run S e1) e2 Hat1); [|exact Hk | lia | exact H2].
   apply (LB_NU (N.of_nat (N.to_nat INF))); [lia | exact HLB].
 Qed.
 
